@@ -16,7 +16,9 @@ CONF = dict(
           'over SCION (client.MeasureClockOffsetSCION, one client, empty path; kinds scion.hist, scion.auth, scion.nts, scion.ntsauth, scion.allfail, scion.allfailauth): NTP and '
           'NTS payload recipes wrapped into SCION/UDP packets, plus wrong source / destination ISD-AS, wrong source / destination host, source / destination host addresses that resemble the queried one (IPv6 ending or beginning in the '
           'server\'s four IPv4 bytes, IPv4-compatible ::a.b.c.d, the IPv4-mapped form of the server - the same host, accepted -, of another host, with one prefix bit off or the last '
-          'byte changed, a random IPv6 host, a service address, one bit of the IPv4 address flipped), bytes that are not SCION, cut-off '
+          'byte changed, a random IPv6 host, a service address, one bit of the IPv4 address flipped), the bytes of the queried / the client\'s host under every address type and length the SCION header can express '
+          '(kind scion.addrtype: service address and unassigned 4-byte types with the host\'s four bytes, 16-byte addresses of a type other than IPv6 holding the IPv4-mapped form, 8- '
+          'and 12-byte addresses, with the IPv4 and IPv4-mapped IPv6 forms as controls), bytes that are not SCION, cut-off '
           'packets; the client with Auth.Enabled (DRKey host-host key; the harness re-executes itself with USE_MOCK_KEYS=true) and the client without key are sent end-to-end '
           'extensions with packet authenticators (SPAO): genuine MAC, one MAC bit flipped, random / zero MAC, timestamp / sequence-number bytes changed after or before the MAC '
           'was computed, a bit of the NTP payload / of the SCION-UDP header / of the flow id flipped after the MAC was computed (the payload stays a valid response), a bit '
@@ -58,5 +60,5 @@ CONF = dict(
                  'request quotes: a timestamp of a skipped or rejected datagram must not enter a measurement); a returned offset is that of an accepted exchange; a cookie in the pool '
                  'after a call comes from the pool before it, a key exchange, or a datagram that passed all of these'),
     timeout_quick=900, timeout_thorough=3000,
-    min_cases={'ip.hist': 480, 'scion.allfail': 1, 'scion.allfailauth': 1, 'scion.auth': 160, 'scion.hist': 160, 'scion.nts': 38, 'scion.ntsauth': 40},
+    min_cases={'ip.hist': 480, 'scion.addrtype': 28, 'scion.allfail': 1, 'scion.allfailauth': 1, 'scion.auth': 160, 'scion.hist': 160, 'scion.nts': 38, 'scion.ntsauth': 40},
 )
